@@ -47,6 +47,16 @@ def run_c20(ctx):
             lines.append("serve scan " + ",".join(p.hex() for _, p in pats))
             lines.append("serve drop")
             sessions.append(lines); meta.append((seed, level, fault, pats))
+    # a seed of the wrong length handed to the library without validation (embedding, or a KMS build whose
+    # decrypted seed is longer): construction panics, and what the panic prints is scanned like a log record
+    for si, seed in enumerate(seeds[:3]):
+        for bad in (seed[:31], seed + b"\x07", seed + seed, seed[:16]):
+            pats = [("the given seed bytes, hex", bad.hex().encode()), ("the given seed bytes, HEX", bad.hex().upper().encode()),
+                    ("the given seed bytes, raw", bad), ("the given seed bytes, base64", base64.b64encode(bad).rstrip(b"=")),
+                    ("the given seed bytes, debug-list", str(list(bad)).encode())]
+            pats.append(("control: the panic record marker", b"PANIC "))
+            lines = ["serve new 8 0 5 0 %s" % bad.hex(), "serve scan " + ",".join(p.hex() for _, p in pats), "serve drop"]
+            sessions.append(lines); meta.append((seed, -1, 0, pats))
     outs = vlib.run_sessions(vlib.HARNESS, sessions, "sec")
     for (seed, level, fault, pats), lines, out in zip(meta, sessions, outs):
         ctx.evaluations += 1
@@ -61,6 +71,14 @@ def run_c20(ctx):
         if leaked:
             names = sorted({"%s in %s" % (pats[int(h.split(":")[1])][0], h.split(":")[0]) for h in leaked})
             ctx.violation("property", "secret material emitted at log level %d: %s" % (level, ", ".join(names)), rep); continue
+        if level == -1:
+            # wrong-length seed: the control is the panic record itself
+            if ("log:%d" % control) not in hit_ids:
+                ctx.violation("tie", "positive control failed: construction with a %d-byte seed left no panic record (%s)" % (len(bytes.fromhex(lines[0].split()[-1])), out[0][:80]), rep)
+            else:
+                ctx.traces_validated += 1
+                ctx.nontriv("badlen:%s:%d" % (seed.hex()[:8], len(lines[0].split()[-1]) // 2))
+            continue
         if ("dgram:%d" % control) not in hit_ids and fault == 0:
             ctx.violation("tie", "positive control failed: the echoed nonce was not found in the captured datagrams", rep); continue
         nlogs = int(scan.split("logs=")[1].split()[0])
@@ -97,7 +115,10 @@ def run_c20(ctx):
             ctx.traces_validated += 1
             ctx.nontriv("bin:%s:%s" % (seed.hex()[:8], source))
             ctx.count("binary_runs")
-    rejected_configurations(ctx, seeds[:2] if not ctx.thorough else seeds[:10])
+    # a seed whose hex spelling consists of decimal digits only: YAML types the unquoted value as a number,
+    # the file loader refuses it — and the refusal is an emission like any other
+    digit_seed = bytes.fromhex("3141592653589793238462643383279502884197169399375105820974944592")
+    rejected_configurations(ctx, (seeds[:2] if not ctx.thorough else seeds[:10]) + [digit_seed])
     proof_verdict(ctx)
 
 
